@@ -18,12 +18,13 @@ Definition sidecar_path (data_suffix p : string) : string :=
   let par := parent_path p in
   (if String.eqb par "/" then "/" else par ++ "/") ++ stem ++ data_suffix.
 
-Inductive encoder := EncStr | EncUri | EncNone.
+Inductive encoder := EncStr | EncUri | EncNone | EncLast.      (* EncLast: the last field value (not injective) *)
 Definition encode (e : encoder) (x : sid) : option string :=
   match e with
   | EncStr => Some (s_string x)
   | EncUri => Some (uri x)
   | EncNone => None
+  | EncLast => last_opt (map snd (s_fields x))
   end.
 
 Definition record := list (string * option string).     (* a mapping; None = python None *)
